@@ -175,6 +175,9 @@ def run_cases(binp, cases, seed):
     finally:
         shutil.rmtree(sd, ignore_errors=True)
     viols, quirks = [], {}
+    for pn in out.get('panics') or []:
+        rp = vlib.save_replay(PID, 'cases_panic', {'kind': 'child process died of a panic in the code under test', 'panic': pn})
+        viols.append({'property': PID, 'signature': 'panic|' + pn.split(' in ')[-1].split('/')[-1], 'msg': pn, 'replay': rp})
     intended = {}
     for c in cases['i']['route']:
         for layer in ('http', 'svc'):
